@@ -164,7 +164,7 @@ static size_t gen_stack_size(Ctx &ctx, bool &bdim) {
 template <class X, bool SECRET> static void stack_case(Ctx &ctx) {
   typedef typename X::T T; const std::string nm = std::string(SECRET ? "TMCG_StackSecret<" : "TMCG_Stack<") + X::name() + ">";
   bool bdim = false; size_t n = gen_stack_size(ctx, bdim);
-  size_t cells = std::max<size_t>(1, std::min<size_t>(320, 2400 / n)); // bound the total number of integers per stack
+  size_t cells = std::max<size_t>(1, std::min<size_t>(320, 1200 / n)); // bound the total number of integers per stack
   ValGen vg(ctx, n <= 8 ? 1 : 0); DimGen d = gen_dims(ctx, cells); bool mixed = ctx.c.prob(1, 6), cb = false;
   std::vector<size_t> perm(n); for (size_t i = 0; i < n; i++) perm[i] = i;
   if (SECRET) { size_t pk = ctx.c.weighted({1, 1, 6}); if (pk == 1) std::reverse(perm.begin(), perm.end()); else if (pk == 2) for (size_t i = n; i > 1; i--) std::swap(perm[i - 1], perm[ctx.c.index(i)]); }
@@ -189,7 +189,7 @@ template <class X, bool SECRET> static void stack_case(Ctx &ctx) {
   std::string t2 = SECRET ? text_of(ss2) : text_of(st2);
   if (t2 != t1) ctx.fail("roundtrip/" + nm + "/re-exported-text-differs", ctx.desc.str() + ": " + first_diff(t2, t1));
 }
-VF_SUB(stack_roundtrip, 3200, 50000) {
+VF_SUB(stack_roundtrip, 2600, 50000) {
   switch (ctx.c.weighted({3, 3, 2, 2})) { case 0: stack_case<XTmcgCard, false>(ctx); break; case 1: stack_case<XTmcgCardSecret, true>(ctx); break; case 2: stack_case<XVtmfCard, false>(ctx); break; default: stack_case<XVtmfCardSecret, true>(ctx); }
 }
 
